@@ -1,6 +1,8 @@
-// TRUSTED WALKER CONTRACTS -- functions of /repo/src/traverse.rs that are outside Verus' language (closures capturing
-// FnMut, `?` on ControlFlow, try_for_each). Each contract below is assumed here and is the assertion set of a
-// bounded Kani harness on the real function (DESIGN 3.5); results that lean on them say so.
+// WALKER CONTRACTS used by class L (closure lifting): "walk_X(ast, f) calls f exactly once on each element of S(ast), in
+// that order, and does nothing else". For walk_methods and walk_types this is PROVED on the real functions in unit
+// v_walk (FnMut parameter replaced by an abstract recording visitor, class V). What remains assumed here is only the
+// step from "the callback is called exactly on S, in order" to "the call is a loop over S" (parametricity of a generic
+// FnMut parameter).
 // walk_methods(ast, f) calls f exactly once on each method of the interface, in source order, constants skipped,
 // and does nothing else (class L: the call site iterates this sequence)
 #[verifier::external_body]
